@@ -10,16 +10,16 @@ func init() {
 			"for ambiguity codes the published estimators are silent: the oracle follows the documented counting rule of the repository (incompatible sets = 1 difference; only certain transitions/transversions feed K2P/F84/TN93), and 'observed proportion of differing sites' is the proportion under the model's own counting rule",
 			"open points accepted in every reading and counted as ambiguous_accepted: base frequencies normalised over the nucleotide cells or over all cells of the selected columns (gap cells included, what the code does); --rm-gaps removing only gap columns (flag help) or every column with a non-ACGT residue (doc comment of selectedSites, what the code does); a pair without comparable site and without difference reported as 0 or as undefined; an estimator value above the documented limit 100000 reported as such or substituted",
 			"--gap-mut is read as in the flag help and the constants (1 = internal gaps only, 2 = all gaps); the stale struct comment says the opposite",
-			"two findings on the unchanged tree wait for a decision (props/c07/FINDINGS.md) and are steered around, counted in excluded_known: the internal-gap counting mode ignores --rm-gaps; with gap cells in the base-frequency total F84/TN93 can fall below the observed proportion of differences",
+			"two findings on the unchanged tree wait for a decision (described above `pending` in props/c07/c07_test.go, candidate repairs in props/c07/proposed-fix-*.patch) and are steered around, counted in excluded_known: the internal-gap counting mode ignores --rm-gaps; with gap cells in the base-frequency total F84/TN93 can fall below the observed proportion of differences",
 			"sequence ranges are drawn inside [0, n-1]; residues outside A,C,G,T, IUPAC codes and '-' are outside the quantifier",
 			"absence of violations is established on the explored cases only; the 2x2 (2x3) alignment space is enumerated completely for 38 option combinations",
 		},
-		LevelText: "Generated-input search against independently written closed-form estimators: ~215 000 (quick) to several million (thorough) alignments x option sets compared entry by entry at 1e-9, a complete enumeration of all 2-row x 2-column alignments x 38 option combinations, and a few hundred to thousands of command executions. Shows absence of violations on what was explored; ill-conditioned pairs (log argument within 1e-6 of 0) are not judged.",
+		LevelText: "Generated-input search against independently written closed-form estimators: ~216 000 (quick) to 5.5 million (thorough) alignments x option sets compared entry by entry at 1e-9, a complete enumeration of all 2-row x 2-column alignments x 38 option combinations, and a few hundred to thousands of command executions. Shows absence of violations on what was explored; ill-conditioned pairs (log argument within 1e-6 of 0) are not judged.",
 		LevelNote: "trusts the harness's transcription of the five published formulas and of the documented ambiguity counting rule; two documented open points (frequency normalisation with gaps, rm-gaps on ambiguity columns) are accepted in both readings",
 		Technique: "property-based testing (rapid): reference model (textbook estimators on independent counters) + matrix validity predicates; bounded exhaustive enumeration; command-line differential",
 		DesignRef: "DESIGN.md section 5, C07",
 		Runs: []runSpec{
-			{Name: "estimators", Test: "^TestEstimators$", Quick: 60000, Thorough: 120000, Shards: 12},
+			{Name: "estimators", Test: "^TestEstimators$", Quick: 60000, Thorough: 200000, Shards: 12},
 			{Name: "enumerate", Test: "^TestEnumerateSmall$", Quick: 1, Thorough: 1},
 			{Name: "cli", Test: "^TestCLI$", Quick: 700, Thorough: 6000, Shards: 3},
 		},
